@@ -304,6 +304,8 @@ impl PrivateBatchProver {
         // reference from the first non-dummy slot in-circuit, so no position is special.
         if proofs.len() > 1 {
             let mut rng = rand::thread_rng();
+            #[cfg(feature = "verif-hooks")]
+            let mut rng = crate::verif_hooks::rng();
             proofs.shuffle(&mut rng);
         }
 
@@ -320,6 +322,19 @@ impl PrivateBatchProver {
         )?;
 
         Ok(self)
+    }
+
+    /// Verification hook: the witness `commit` filled.
+    #[cfg(feature = "verif-hooks")]
+    pub fn verif_partial_witness(&self) -> &PartialWitness<F> {
+        &self.partial_witness
+    }
+
+    /// Verification hook: re-arm a committed prover so it can be committed again.
+    #[cfg(feature = "verif-hooks")]
+    pub fn verif_reset(&mut self, targets: PrivateBatchCircuitTargets) {
+        self.partial_witness = PartialWitness::new();
+        self.targets = Some(targets);
     }
 
     /// Generate the aggregated private-batch proof after `commit(...)`.
